@@ -179,7 +179,8 @@ Definition api_fp (t : thread) (st : astate) (a : api) : list loc * list assign 
   | AEncryptWith m k =>
       (sloc t m :: pl t st m :: gTables :: key_locs t st (SObj k), [(sloc t m, f_touch); (pl t st m, f_crypt)])
   | ADecode s d =>
-      ([src_loc t st s; gDecoders; gSge; gTables],
+      (* some Reader-path box decoders read the body and hand it to the SliceReader decoders: both registries *)
+      ([src_loc t st s; gDecoders; gDecodersSR; gSge; gTables],
        [(sloc t d, f_struct); (ownp t d, f_payload)])
   | ADecodeSR s d =>
       ([src_loc t st s; gDecodersSR; gSge; gTables],
@@ -187,9 +188,10 @@ Definition api_fp (t : thread) (st : astate) (a : api) : list loc * list assign 
   | AInfo o d =>   (* Info is not read-only on its own object: SencBox.Info sets s.Flags *)
       ([sloc t o; pl t st o; gTables], [(sloc t o, f_touch); (sloc t d, f_struct); (ownp t d, f_out)])
   | AEncode o d | AEncodeSW o d =>
-      ([sloc t o; pl t st o], [(sloc t o, f_touch); (sloc t d, f_struct); (ownp t d, f_out)])
+      (* encoders read the uuid constants and the writers' error values *)
+      ([sloc t o; pl t st o; gTables], [(sloc t o, f_touch); (sloc t d, f_struct); (ownp t d, f_out)])
   | ASamples o d =>   (* GetFullSamples calls trun.AddSampleDefaultValues: it updates the fragment it reads *)
-      ([sloc t o], [(sloc t o, f_touch); (sloc t d, f_struct)])
+      ([sloc t o; gTables], [(sloc t o, f_touch); (sloc t d, f_struct)])
   | AEncrypt o | ADecrypt o =>
       ([sloc t o; pl t st o; gTables], [(sloc t o, f_touch); (pl t st o, f_crypt)])
   | AToByteStream o | AToNaluSample o =>
